@@ -10,6 +10,7 @@ import types
 
 from . import symnp, symlibs
 
+CURRENT_PATCHES = None  # in-memory mutant patches of the current run (self-test), for sub-checks that read source text
 REPO = os.environ.get("BVERIF_REPO", "/repo")
 SRC = os.path.join(REPO, "src")
 
